@@ -9,7 +9,9 @@ Open Scope list_scope.
 Module C06.
 (* what is observed: the lines of `stagemaker -list stage -files` and the members of the
    archive written by `stagemaker -generate` (name, type flag, link name of hard links) *)
-Record obs := MkObs { o_list : res (list bytes); o_tar : res (list member) }.
+Record obs := MkObs { o_list : res (list bytes); o_tar : res (list member);
+                      o_extract : bool }.   (* thorough tier: GNU tar extracted the archive into an empty
+                                               directory and every member is there (true when not run) *)
 Record case := MkCase {
   c_in : input;
   c_nobdeps : bool;       (* passed to the binary; the selection is an input here (C05) *)
@@ -32,13 +34,14 @@ Definition res_beq {A} (eq : A -> A -> bool) (a b : res A) : bool :=
   | _, _ => false
   end.
 Definition obs_beq (a b : obs) : bool :=
-  res_beq (list_beq feq) (o_list a) (o_list b) && res_beq (list_beq member_beq) (o_tar a) (o_tar b).
+  res_beq (list_beq feq) (o_list a) (o_list b) && res_beq (list_beq member_beq) (o_tar a) (o_tar b)
+  && Bool.eqb (o_extract a) (o_extract b).
 
 Definition map_res {A B} (f : A -> B) (r : res A) : res B :=
   match r with Ok a => Ok (f a) | Failed => Failed | Panic => Panic end.
 Definition model (c : case) : obs :=
   let r := stage_list (c_in c) in
-  MkObs (map_res (map m_name) r) (map_res (map tar_member) r).
+  MkObs (map_res (map m_name) r) (map_res (map tar_member) r) true.
 
 (* ---------------------------------------------------------------- well-formed inputs *)
 Fixpoint nodupb (l : list bytes) : bool :=
@@ -282,7 +285,7 @@ Definition spec_ok (i : input) (ls : list bytes) (ms : list member) : bool :=
 (* a run ends with an archive or with a refusal (exit status 1, nothing written); it never crashes *)
 Definition spec (c : case) (o : obs) : bool :=
   match o_list o, o_tar o with
-  | Ok ls, Ok ms => spec_ok (c_in c) ls ms
+  | Ok ls, Ok ms => if o_extract o then spec_ok (c_in c) ls ms else false
   | Failed, Failed => true
   | _, _ => false
   end.
